@@ -27,12 +27,13 @@ TB = [
     "model/PropCatalogue.v: the proxy-level getters/setters (which child is get_or_add'ed, removed, which attribute is assigned, value pre/post-processing) are hand-transcribed from the python sources and tied by this correspondence (exact outcomes, read-backs and element state over random histories), not translated",
     "coq/lib/PyVal.v + PyFloat.v: python value semantics and exact binary64 arithmetic (validated bit-exactly against CPython)",
     "lxml: attribute set/get/delete, child insert/remove, serialise + parse round trip (save + re-open is observed by the oracle, not modelled)",
+    "tx/xsdlib.py (structural reading of the XSDs of /repo/spec: content models, choice groups, attribute declarations, enumerations) generates the foreign pre-states; libxml2 (lxml.etree.XMLSchema over pml.xsd / dml-chart.xsd) decides whether a pre-state is schema-valid",
     "repr(float) round trip for xsd:double attributes (str(float(v)) is modelled as a marker + exact mantissa/exponent)",
 ]
 ASSUME = [
     "element states are well-formed trees (an attribute needs its element, an element its parent) in which every child named by a catalogue path is unique among its siblings; repeated children (a:p, a:r, c:ser, a:gs, c:dLbl) are outside the state model and reached only through the anchor chosen by the harness",
-    "getters that call get_or_add (paragraph alignment/level, DataLabels.show_*) are modelled by their value; their own insertion of an empty element is C12's subject (the harness reads every property once before the initial snapshot)",
-    "ColorFormat is modelled for the colour kinds srgbClr / schemeClr / none",
+    "getters that call get_or_add (paragraph alignment/level) are modelled by their value; their own insertion of an empty element is C12's subject (the harness reads every property once before the initial snapshot)",
+    "foreign pre-states are single and paired variations of a fresh object: each state variable of a property (the keys its getter reads and its setter may write, from the model; for oracle-only properties the keys an assignment is seen to touch) takes the values the XSDs of /repo/spec permit (enumerations in full, sample values of the other simple types, presence of optional elements, the other members of an xsd:choice); a variation is used only when libxml2 reports no new error for the part; where the property's own getter raises in the pre-state, or the property is one facet of a shared setting (dependency group), a refusal of the assignment is not judged",
     "what a placeholder inherits (the readings left / top / width / height of its base placeholder, another element that an assignment history does not touch) enters the model as pseudo attributes ~base@left .. ~base@height, taken once by the harness before the history; an attribute is absent when the base reports None or there is no base",
     "oracle-only properties (tx/c09_oracle_only.json) are judged by the direct oracle only",
     "get_set is proved as get (set v t) = quantize v with quantize the translated conversion; the bound |quantize v - v| <= quantum is proved for EMU (exact), centipoints (Font.size, paragraph spacing in points), ST_Percentage (crop, gradient stop, lumMod/lumOff: C09_percentage_quantum) and ST_Angle (rotation: C09_angle_quantum) for every accepted value; for line spacing in lines, gradient angle (ST_PositiveFixedAngle), adjustments and xsd:double attributes it is checked bit-exactly on threshold grids only",
@@ -671,7 +672,7 @@ def make_kinds(rng):
     K.append(Kind("legend", b_bar, lambda prs: chart0(prs).legend, lambda o: o._element, [
         enum_prop("position", "Legend.position", XL_LEGEND_POSITION, nullable=False),
         P("include_in_layout", "Legend.include_in_layout", [True, False, 0, 1, "x", ""], [], [], none=("reads", True), truthy=True),
-        float_prop("horz_offset", None, -1.0, 1.0, rng, 0, extra_valid=[0, 0.25], cls="Legend", unjudged=[1.5, -1.5]),
+        float_prop("horz_offset", "Legend.horz_offset", -1.0, 1.0, rng, 0, extra_valid=[0, 0.25], unjudged=[1.5, -1.5]),
     ], part=chart_part))
     K.append(Kind("data_labels", b_bar, lambda prs: chart0(prs).plots[0].data_labels, lambda o: o._element, [
         str_prop("number_format", "DataLabels.number_format", group="numfmt"),
@@ -942,7 +943,8 @@ def val_from_spec(d):
     return object()
 
 
-def oracle_trial(ck, kind, p, v, verdict, reopen, stats, where="fresh", prs=None, nav=None, prepare=None, twin=None, frame=True, prep_spec=None):
+def oracle_trial(ck, kind, p, v, verdict, reopen, stats, where="fresh", prs=None, nav=None, prepare=None, twin=None, frame=True, prep_spec=None,
+                 foreign=False):
     """One assignment on a fresh object, judged by the property's statement alone.
     prepare: brings the object into another state first (a prior assignment, or removal of the optional
     elements the setter would create); twin: builds an identical second object on which the readings
@@ -981,7 +983,12 @@ def oracle_trial(ck, kind, p, v, verdict, reopen, stats, where="fresh", prs=None
     rec = {"entry_point": p.name, "object": "%s (%s)" % (kind.name, where), "input": repr(v), "value_class": value_class(v),
            "object_kind": kind.name, "attr": p.attr, "value": val_spec(v), "prepare": prep_spec, "label": p.label}
     if res[0] == "err":
-        if res[1] not in ("Type", "Value"):
+        # a foreign pre-state may turn the object into one the property does not apply to (its own getter raises: another
+        # fill type, a gradient that is not linear, no colour) or change what a facet of a shared setting can hold
+        # (begin_x beside a foreign a:off/a:ext): there a refusal is not judged, only what it leaves behind
+        if foreign and (before[p.attr][0] == "err" or (p.group is not None and res[1] in ("Type", "Value"))):
+            stats["foreign_refusal_not_judged"] = stats.get("foreign_refusal_not_judged", 0) + 1
+        elif res[1] not in ("Type", "Value"):
             ck.violation("wrong-exception:%s:%s" % (p.name, res[2]), "%s = %r on a %s raises %s, not TypeError/ValueError" % (p.name, v, kind.name, res[2]),
                          dict(rec, impl_outcome=res[2]))
         elif verdict == "valid":
@@ -1250,6 +1257,541 @@ def corpus_part(prs, obj):
         return prs.part
 
 
+# ------------------------------------------------------------------ foreign pre-states (derived from the schema)
+# A setter that stores a setting in more than one place (a mode element beside the value, one of several
+# alternative children, a value attribute beside a flag) is only right if it puts ALL of them into the state its
+# own getter understands, whatever was there.  python-pptx itself writes one spelling of each setting; other
+# producers (PowerPoint) write the others.  For every property the state variables are taken from the model (every
+# key the getter reads, every key or subtree the setter may write: run_c09 keys) or, without a catalogue entry, from
+# the elements an assignment is observed to touch; the ISO/IEC 29500 XSDs of /repo/spec give every variable its
+# domain: each enumeration value / sample values of the simple type of an attribute (the attributes the getter or
+# setter names, and every attribute the schema declares for an element the setter creates or removes), presence
+# of an optional element (created with its required attributes and children, in schema order), each alternative of
+# the xsd:choice the element belongs to.  A pre-state is used only if libxml2 finds the part as valid as before.
+_BUILTIN = {
+    "boolean": ["1", "0", "true", "false"],
+    "double": ["0.5", "-0.25", "2", "0"], "float": ["0.5", "-0.25"], "decimal": ["0.5", "2"],
+    "hexBinary": ["00FF00", "A1B2C3"],
+}
+for _n in ("int", "integer", "long", "short", "byte", "unsignedInt", "unsignedShort", "unsignedByte", "unsignedLong",
+           "nonNegativeInteger", "positiveInteger"):
+    _BUILTIN[_n] = ["1", "7", "100", "50000", "0", "-3"]
+
+
+class Xsd:
+    def __init__(self):
+        import sys
+        from lxml import etree
+        tx = os.path.join(VERIF, "tx")
+        if tx not in sys.path:
+            sys.path.insert(0, tx)
+        import xsdlib
+        self.S = xsdlib.Schemas()
+        self.XS = xsdlib.XS
+        self.pfxns = {v: k for k, v in xsdlib.NSPFX.items()}
+        d = xsdlib.XSD_DIRS[0][0]
+        self.validators = {}
+        for pfx, f in (("p", "pml.xsd"), ("c", "dml-chart.xsd")):
+            try:
+                self.validators[pfx] = etree.XMLSchema(etree.parse(d + f))
+            except Exception:  # noqa
+                pass
+        self._kids, self._attrs, self._order, self._alts, self._req = {}, {}, {}, {}, {}
+
+    # ---- validity of a whole part, as a set of messages (new messages = the edit made it invalid)
+    def errors(self, root):
+        v = self.validators.get(ptag(root.tag).split(":")[0])
+        if v is None:
+            return None
+        if v.validate(root):
+            return frozenset()
+        return frozenset(e.message for e in v.error_log)
+
+    # ---- types
+    def kids(self, q):
+        if q not in self._kids:
+            acc = {}
+            if q in self.S.ctypes:
+                self.S._child_types(self.S.ctype_cm(q), acc)
+            self._kids[q] = {t: next((x for x in sorted(tys, key=str) if x), None) for t, tys in acc.items()}
+        return self._kids[q]
+
+    def type_of(self, elem):
+        chain = [elem] + list(elem.iterancestors())
+        chain.reverse()
+        rt = ptag(chain[0].tag)
+        q = None
+        if ":" in rt:
+            rec = self.S.gelems.get(tuple(rt.split(":")))
+            if rec is not None and rec[0].get("type"):
+                q = self.S.qn(rec[0].get("type"), rec[1], rec[2])
+        for e in chain[1:]:
+            if not isinstance(e.tag, str):
+                return None
+            t = ptag(e.tag)
+            nq = self.kids(q).get(t) if q else None
+            if nq is None:
+                tys = [x for x in self.S.tag_types.get(t, ()) if x]
+                nq = tys[0] if len(tys) == 1 else None
+            q = nq
+        return q
+
+    def attrs(self, q):
+        """-> [(clark name, simple type or None, required)]"""
+        if q in self._attrs:
+            return self._attrs[q]
+        out = []
+        self._attrs[q] = out
+        rec = self.S.ctypes.get(q)
+        if rec is None:
+            return out
+        XS, S = self.XS, self.S
+
+        def from_node(node, nsmap, pfx):
+            for c in node:
+                if not isinstance(c.tag, str):
+                    continue
+                if c.tag == XS + "attribute":
+                    if c.get("use") == "prohibited":
+                        continue
+                    if c.get("ref"):
+                        rq = S.qn(c.get("ref"), nsmap, pfx)
+                        ge = S.gattrs.get(rq)
+                        if ge is None or rq[0] not in self.pfxns:
+                            continue
+                        ty = S.qn(ge[0].get("type"), ge[1], ge[2]) if ge[0].get("type") else None
+                        out.append(("{%s}%s" % (self.pfxns[rq[0]], rq[1]), ty, c.get("use") == "required"))
+                    else:
+                        ty = S.qn(c.get("type"), nsmap, pfx) if c.get("type") else None
+                        out.append((c.get("name"), ty, c.get("use") == "required"))
+                elif c.tag == XS + "attributeGroup" and c.get("ref"):
+                    g = S.agroups.get(S.qn(c.get("ref"), nsmap, pfx))
+                    if g is not None:
+                        from_node(g[0], g[1], g[2])
+                elif c.tag in (XS + "complexContent", XS + "simpleContent"):
+                    for ext in c:
+                        if isinstance(ext.tag, str) and ext.get("base"):
+                            base = S.qn(ext.get("base"), nsmap, pfx)
+                            if base in S.ctypes:
+                                out.extend(self.attrs(base))
+                            from_node(ext, nsmap, pfx)
+        from_node(rec[0], rec[1], rec[2])
+        return out
+
+    def samples(self, ty, depth=0):
+        """lexical values the simple type may permit (enumerations: all of them); the validator has the last word"""
+        if ty is None or depth > 6:
+            return ["x"]
+        if ty[0] == "xsd":
+            return list(_BUILTIN.get(ty[1], ["x"]))
+        rec = self.S.stypes.get(ty)
+        if rec is None:
+            return ["x"]
+        e, nsmap, pfx = rec[0], rec[1], rec[2]
+        XS = self.XS
+        r = e.find(XS + "restriction")
+        if r is not None:
+            enums = [x.get("value") for x in r.findall(XS + "enumeration")]
+            if enums:
+                return enums
+            base = self.samples(self.S.qn(r.get("base"), nsmap, pfx), depth + 1) if r.get("base") else ["x"]
+            lim = [x.get("value") for f in ("minInclusive", "maxInclusive") for x in r.findall(XS + f)]
+            return base[:2] + lim + base[2:]          # interior values first, then the bounds
+        u = e.find(XS + "union")
+        if u is not None:
+            out = []
+            for m in (u.get("memberTypes") or "").split():
+                out += self.samples(self.S.qn(m, nsmap, pfx), depth + 1)[:4]
+            return out or ["x"]
+        li = e.find(XS + "list")
+        if li is not None and li.get("itemType"):
+            return self.samples(self.S.qn(li.get("itemType"), nsmap, pfx), depth + 1)
+        return ["x"]
+
+    def is_enum(self, ty):
+        rec = self.S.stypes.get(ty) if ty else None
+        if rec is None:
+            return False
+        r = rec[0].find(self.XS + "restriction")
+        return r is not None and r.find(self.XS + "enumeration") is not None
+
+    def order(self, q):
+        if q not in self._order:
+            tags = self.S.cm_tags(self.S.ctype_cm(q)) if q in self.S.ctypes else []
+            self._order[q] = {t: i for i, t in reversed(list(enumerate(tags)))}
+        return self._order[q]
+
+    def alts(self, q):
+        """the exclusive xsd:choice groups of a content model, each a list of alternatives (lists of tags)"""
+        if q in self._alts:
+            return self._alts[q]
+        out = []
+
+        def walk(cm, excl):
+            k = cm[0]
+            if k == "rep":
+                walk(cm[3], excl and cm[2] == 1)
+            elif k == "seq":
+                for c in cm[1]:
+                    walk(c, excl)
+            elif k == "alt":
+                if excl:
+                    out.append([self.S.cm_tags(c) for c in cm[1]])
+                for c in cm[1]:
+                    walk(c, excl)
+        if q in self.S.ctypes:
+            walk(self.S.ctype_cm(q), True)
+        self._alts[q] = out
+        return out
+
+    def required_kids(self, q):
+        if q in self._req:
+            return self._req[q]
+        out = []
+
+        def walk(cm):
+            k = cm[0]
+            if k == "elt":
+                out.append(cm[1])
+            elif k == "rep":
+                if cm[1] >= 1:
+                    walk(cm[3])
+            elif k == "seq":
+                for c in cm[1]:
+                    walk(c)
+            elif k == "alt" and cm[1]:
+                walk(cm[1][0])
+        if q in self.S.ctypes:
+            walk(self.S.ctype_cm(q))
+        self._req[q] = out
+        return out
+
+    # ---- editing
+    def child(self, e, t, first_is_nv=False):
+        kids = [c for c in e if isinstance(c.tag, str)]
+        if t == "*nv":
+            return kids[0] if first_is_nv and kids else None
+        for c in kids:
+            if ptag(c.tag) == t:
+                return c
+        return None
+
+    def create(self, parent, tag, depth=0):
+        q = self.type_of(parent)
+        if q is None or tag not in self.kids(q) or ":" not in tag:
+            return None
+        pfx, local = tag.split(":")
+        if pfx not in self.pfxns:
+            return None
+        el = parent.makeelement("{%s}%s" % (self.pfxns[pfx], local))
+        for group in self.alts(q):          # the new child takes the place of the other members of its xsd:choice
+            if any(tag in alt for alt in group):
+                for alt in group:
+                    for t in alt:
+                        c = self.child(parent, t)
+                        if c is not None and t != tag and tag not in alt:
+                            parent.remove(c)
+        order = self.order(q)
+        rank = order.get(tag, 10**6)
+        pos = len(parent)
+        for i, c in enumerate(parent):
+            if isinstance(c.tag, str) and order.get(ptag(c.tag), -1) > rank:
+                pos = i
+                break
+        parent.insert(pos, el)
+        kt = self.kids(q).get(tag)
+        if kt is not None and depth <= 3:
+            for name, ty, req in self.attrs(kt):
+                if req:
+                    el.set(name, (self.samples(ty) or ["x"])[0])
+            for t in self.required_kids(kt):
+                if self.child(el, t) is None:
+                    self.create(el, t, depth + 1)
+        return el
+
+    def ensure(self, anchor, path, nv):
+        e = anchor
+        for i, t in enumerate(path):
+            nxt = self.child(e, t, nv and i == 0)
+            if nxt is None:
+                if t[:1] in "*~":
+                    return None
+                nxt = self.create(e, t)
+                if nxt is None:
+                    return None
+            e = nxt
+        return e
+
+    def apply(self, anchor, edit, nv):
+        """-> True when the edit could be made"""
+        kind, path = edit[0], edit[1].split("/") if edit[1] else []
+        if kind == "attr":
+            e = self.ensure(anchor, path, nv)
+            if e is None:
+                return False
+            e.set(edit[2], edit[3])
+            return True
+        if kind == "elem":
+            return self.ensure(anchor, path, nv) is not None
+        if kind == "alt":
+            par = self.ensure(anchor, path[:-1], nv)
+            if par is None:
+                return False
+            for t in edit[3]:
+                c = self.child(par, t)
+                if c is not None:
+                    par.remove(c)
+            return self.create(par, edit[2]) is not None
+        return False
+
+
+def clark_show(a):
+    return ptag(a) if a.startswith("{") else a
+
+
+def model_keys(label):
+    """(attribute keys [(path, attr)], element paths the getter tests or the setter creates / removes)"""
+    out = run_model("C09", [["keys", label]])[0]
+    if "#" not in out:
+        return [], []
+    rd, wr = out.split("#", 1)
+    akeys, elems = [], []
+    for item in [x for x in rd.split("|") + wr.split("|") if x]:
+        if item.endswith("/*"):
+            item = item[:-2]
+        if "@" in item:
+            pth_, a = item.split("@", 1)
+            if (pth_, a) not in akeys:
+                akeys.append((pth_, a))
+        elif item and item not in elems:
+            elems.append(item)
+    return akeys, elems
+
+
+def observed_keys(kind, p):
+    """without a catalogue entry: what assignments to the property are seen to add, remove or rewrite"""
+    akeys, elems = [], []
+    if kind.anchor is None:
+        return akeys, elems
+    vals = [v for v in p.valid if v is not None][:4] + ([None] if p.none else [])
+    try:
+        prs = kind.build()
+        obj = kind.nav(prs)
+        if not isinstance(getattr(type(obj), p.attr, None), property):
+            return akeys, elems
+        for q in kind.props:
+            getp(obj, q.attr)
+        st = flatten(kind.anchor(obj), nv=kind.nv)
+        for v in vals:
+            setp(obj, p.attr, v.resolve(prs) if isinstance(v, SlideRef) else v)
+            st2 = flatten(kind.anchor(kind.nav(prs)), nv=kind.nv)
+            for k_ in sorted(set(st) | set(st2)):
+                if st.get(k_, "<absent>") != st2.get(k_, "<absent>"):
+                    if "@" in k_:
+                        pa = tuple(k_.split("@", 1))
+                        if pa not in akeys:
+                            akeys.append(pa)
+                    elif k_ not in elems:
+                        elems.append(k_)
+            st = st2
+    except Exception:  # noqa
+        pass
+    return akeys, elems
+
+
+def foreign_edits(xsd, kind, p, akeys, elems, rng, quick):
+    """-> [(priority, description, edit)] ; edit = ('attr', path, clark attr, text) | ('elem', path) | ('alt', path, tag, group)"""
+    prs = kind.build()
+    obj = kind.nav(prs)
+    anchor = kind.anchor(obj)
+    out, seen = [], set()
+
+    def add(prio, desc, edit):
+        if edit not in seen:
+            seen.add(edit)
+            out.append((prio, desc, edit))
+
+    def elem_type(path):
+        e, q = anchor, xsd.type_of(anchor)
+        for i, t in enumerate(path.split("/") if path else []):
+            if t[:1] == "~":
+                return None
+            c = xsd.child(e, t, kind.nv and i == 0) if e is not None else None
+            if t == "*nv":
+                if c is None:
+                    return None
+                q, e = xsd.type_of(c), c
+                continue
+            q = xsd.kids(q).get(t) if q else None
+            e = c
+            if q is None:
+                return None
+        return q
+
+    def attr_edits(path, q, only=None, prio=1):
+        for name, ty, _req in xsd.attrs(q) if q else []:
+            shown = clark_show(name)
+            if only is not None and shown not in only:
+                continue
+            vals = xsd.samples(ty)
+            if xsd.is_enum(ty):
+                if quick and len(vals) > 6:
+                    vals = rng.sample(vals, 4)
+            elif ty == ("xsd", "boolean"):
+                vals = vals if prio == 1 else vals[2:3]        # the spellings python-pptx never writes: true / false
+            else:
+                vals = vals[:2 if quick else 4] if prio == 1 else vals[:1 if quick else 2]
+            pr = 0 if prio == 1 and (xsd.is_enum(ty) or ty == ("xsd", "boolean")) else prio
+            for v in vals:
+                add(pr, "%s@%s=%r" % (path, shown, v), ("attr", path, name, v))
+
+    # 1: the attributes the getter or setter names
+    by_path = {}
+    for pth_, a in akeys:
+        by_path.setdefault(pth_, set()).add(a)
+    for pth_, names in by_path.items():
+        if pth_.startswith("~"):
+            continue
+        attr_edits(pth_, elem_type(pth_), only=names, prio=1)
+    for pth_ in elems:
+        if not pth_ or pth_[:1] in "~*":
+            continue
+        q = elem_type(pth_)
+        if q is None:
+            continue
+        par = pth_.rsplit("/", 1)[0] if "/" in pth_ else ""
+        tag = pth_.rsplit("/", 1)[-1]
+        pq = elem_type(par)
+        # 2: the other members of the choice the element belongs to
+        for group in xsd.alts(pq) if pq else []:
+            mine = [alt for alt in group if tag in alt]
+            if not mine:
+                continue
+            members = [t for alt in group for t in alt]
+            for alt in group:
+                if tag in alt or not alt or alt[0] == "#any":
+                    continue
+                add(2, "%s instead of %s" % (alt[0], pth_), ("alt", pth_, alt[0], tuple(members)))
+        # 3: the element itself, as another producer would leave it (required content only)
+        add(3, "%s present" % pth_, ("elem", pth_))
+        # 4: every attribute the schema declares for it
+        attr_edits(pth_, q, prio=4)
+    return out
+
+
+def prepared(xsd, kind, edits):
+    """-> (prs, ok): a fresh object of the kind brought into the pre-state, valid as far as it was before"""
+    prs = kind.build()
+    obj = kind.nav(prs)
+    for q in kind.props:
+        getp(obj, q.attr)
+    obj = kind.nav(prs)
+    part = part_of(kind, prs, obj)
+    if part is None:
+        return prs, False
+    before = xsd.errors(part._element)
+    if before is None:
+        return prs, False
+    for ed in edits:
+        if not xsd.apply(kind.anchor(obj), ed, kind.nv):
+            return prs, False
+    after = xsd.errors(part._element)
+    return prs, after is not None and after <= before
+
+
+def select_edits(eds, rng, quick, cap=14):
+    """quick: every enumeration value of the attributes the getter or setter names; of the rest (their other values,
+    the alternatives of a choice, element presence) as many as the cap leaves; one of the remaining attributes"""
+    if not quick:
+        return [(d, [e]) for _p, d, e in eds]
+    out = [(d, [e]) for pr, d, e in eds if pr == 0]
+    if len(out) > cap:
+        out = rng.sample(out, cap)
+    core = [(d, [e]) for pr, d, e in eds if 1 <= pr <= 3]
+    room = max(3, cap - len(out))
+    out += core if len(core) <= room else rng.sample(core, room)
+    rest = [(d, [e]) for pr, d, e in eds if pr == 4]
+    return out + rng.sample(rest, min(1, len(rest)))
+
+
+def edit_pairs(eds, rng, n):
+    """two variables at once (a foreign mode AND a foreign value, ...)"""
+    base = [(d, e) for pr, d, e in eds if pr <= 2 or (pr == 4 and e[0] == "attr")]
+    base = base if len(base) <= 40 else rng.sample(base, 40)
+    out, tries = [], 0
+    while len(out) < n and len(base) >= 2 and tries < 10 * n:
+        tries += 1
+        (d1, e1), (d2, e2) = rng.sample(base, 2)
+        if (e1[1], e1[2]) == (e2[1], e2[2]) or "alt" in (e1[0], e2[0]) and e1[1].rsplit("/", 1)[0] == e2[1].rsplit("/", 1)[0]:
+            continue
+        out.append((d1 + " + " + d2, [e1, e2]))
+    return out
+
+
+def foreign_trials(ck, kinds, rng, quick, have_model, stats, cases, expect):
+    stats.update(foreign_prestates=0, foreign_rejected_by_schema=0, foreign_oracle=0, foreign_histories=0, foreign_properties=0)
+    try:
+        xsd = Xsd()
+    except Exception as e:  # noqa
+        ck.notes.append("foreign pre-states unavailable (schemas): %r" % e)
+        return
+    if not xsd.validators:
+        ck.notes.append("foreign pre-states unavailable: the XSDs of /repo/spec did not compile")
+        return
+    for k in kinds:
+        if k.anchor is None:
+            continue
+        for p in k.props:
+            try:
+                akeys, elems = model_keys(p.label) if (p.label and have_model) else observed_keys(k, p)
+                eds = foreign_edits(xsd, k, p, akeys, elems, rng, quick)
+            except Exception as e:  # noqa
+                ck.notes.append("foreign pre-states of %s %s could not be derived: %r" % (k.name, p.attr, e))
+                continue
+            plan = select_edits(eds, rng, quick) + edit_pairs(eds, rng, 2 if quick else 10)
+            first = [v for v in p.valid if v is not None and not (p.truthy and not v)]
+            if not plan or not first:
+                continue
+            stats["foreign_properties"] += 1
+            for i, (desc, edits) in enumerate(plan):
+                where = "foreign pre-state: " + desc
+                vals = first[:1] if quick else first[:2]
+                if p.none and (not quick or i % 2 == 0):
+                    vals = vals + [None]
+                if len(first) > 1 and quick and i % 2 == 1:
+                    vals = vals + [first[1 + (i // 2) % (len(first) - 1)]]
+                used = False
+                for j, v in enumerate(vals):
+                    try:
+                        prs_f, ok = prepared(xsd, k, edits)
+                        if not ok:
+                            break
+                        used = True
+                        oracle_trial(ck, k, p, v, "valid", reopen=j == 0 or (not quick and v is None), stats=stats, where=where, prs=prs_f,
+                                     prep_spec={"foreign": [list(e) for e in edits]}, foreign=True)
+                        stats["foreign_oracle"] += 1
+                    except Exception as e:  # noqa
+                        ck.notes.append("foreign pre-state trial crashed: %s %s %s %r: %r" % (k.name, p.attr, desc, v, e))
+                if not used:
+                    stats["foreign_rejected_by_schema"] += 1
+                    continue
+                stats["foreign_prestates"] += 1
+                if p.label and have_model:
+                    try:
+                        prs_h, ok = prepared(xsd, k, edits)
+                        ops = [(p, v) for v in vals if modelable(v)] + history(k, rng, 2)
+                        case, outs, st1 = run_history(k, ops, prs=prs_h)
+                    except Exception as e:  # noqa
+                        ck.notes.append("foreign pre-state history crashed: %s %s %s: %r" % (k.name, p.attr, desc, e))
+                        continue
+                    cases.append(case)
+                    expect.append((k, outs, st1, where))
+                    stats["histories"] += 1
+                    stats["foreign_histories"] += 1
+                    stats["history_ops"] += len(ops)
+                    ck.count((k.name, p.attr, desc, case[2]), True, "history-foreign:" + k.name)
+
+
 # ------------------------------------------------------------------ main
 def parse_diag(out):
     """Eval vm_compute in (70xx%N, [list of str]) -> {70xx: [python strings]}"""
@@ -1471,6 +2013,11 @@ def run(ck, tier, rng):
             stats["history_ops"] += len(ops)
             ck.count((kph.name, name, case[1], case[2]), True, "history-prepared:placeholder")
 
+    # ---- foreign pre-states: every state variable of a property (what its getter reads, what its setter may write)
+    # given the values the schema permits but python-pptx does not write itself; set -> get -> save + re-open -> get by
+    # the oracle, and the same assignments on the extracted model from the same element state
+    foreign_trials(ck, kinds, rng, quick, have_model, stats, cases, expect)
+
     # ---- corpus decks
     from pptx import Presentation
     objs, ndecks = corpus_objects(rng, 60 if quick else 900)
@@ -1547,7 +2094,7 @@ def run(ck, tier, rng):
     ck.broken_build(oracle_found_concrete=any_concrete)
     cat = sorted(l for l in labels)
     return ck.finish(
-        rule="every object kind (%d: shapes of each element flavour, placeholder, presentation, slide, text frame, paragraph, font, table, cell, row, column, line, colour, fills, picture, chart, axes, tick labels, legend, data labels, plots, series, marker, adjustment) x every settable property x boundary, interior and out-of-domain values (oracle, one assignment on a fresh object, a third of them also saved and re-opened in quick, all in thorough), random assignment histories of 3-10 operations per kind compared exactly with the extracted model (outcome, read-back, final element state), and the same on sampled objects of the %d corpus decks; non-trivial = an assignment whose verdict is judged, or a history of >= 2 operations" % (len(kinds), ndecks),
+        rule="every object kind (%d: shapes of each element flavour, placeholder, presentation, slide, text frame, paragraph, font, table, cell, row, column, line, colour, fills, picture, chart, axes, tick labels, legend, data labels, plots, series, marker, adjustment) x every settable property x boundary, interior and out-of-domain values (oracle, one assignment on a fresh object, a third of them also saved and re-opened in quick, all in thorough), random assignment histories of 3-10 operations per kind compared exactly with the extracted model (outcome, read-back, final element state), and the same on sampled objects of the %d corpus decks; foreign pre-states: every state variable of each property (keys its getter reads / its setter may write, from the model) given the values the XSDs permit (enumeration values in full, other members of an xsd:choice, optional elements present, sample values), singly and in pairs, validated with libxml2, then set -> get -> save + re-open -> get by the oracle and the same assignments on the extracted model from the same element state; non-trivial = an assignment whose verdict is judged, or a history of >= 2 operations" % (len(kinds), ndecks),
         trusted_base=TB, assumptions=ASSUME,
         extra={"catalogue": cat, "oracle_only": ["%s.%s" % (e["cls"], e["prop"]) for e in meta["oracle_only"]],
                "oracle_only_reasons": {"%s.%s" % (e["cls"], e["prop"]): e["reason"] for e in meta["oracle_only"]},
@@ -1571,7 +2118,7 @@ def replay(rec):
         return 0
     kinds = {k.name: k for k in make_kinds(random.Random(0))}
     k = kinds[rec["object_kind"]]
-    if "(fresh)" not in rec.get("object", "") and "(stripped)" not in rec.get("object", "") and "(after " not in rec.get("object", ""):
+    if not any(t in rec.get("object", "") for t in ("(fresh)", "(stripped)", "(after ", "(siblings set)", "(foreign pre-state")):
         from pptx import Presentation
         where = rec["object"].split("(", 1)[1].rstrip(")")
         print("corpus object of", where, "- replaying on a fresh", k.name)
@@ -1588,6 +2135,10 @@ def replay(rec):
         setp(obj, p.attr, val_from_spec(prep["assign"]))
     if prep.get("regate") and k.name in REGATES:
         REGATES[k.name](prs)
+    if prep.get("foreign") and k.anchor is not None:
+        xsd = Xsd()
+        for ed in prep["foreign"]:
+            print("pre-state edit", ed, "->", xsd.apply(k.anchor(k.nav(prs)), ed, k.nv))
     if prep.get("siblings"):
         for q in k.props:
             if q is p or (p.group is not None and q.group == p.group):
@@ -1613,7 +2164,7 @@ def replay(rec):
 
 CLAIM = {
     "tech": "Coq proof: generic theorems over a small setter/getter language (model/Props.v) for ALL values and ALL well-formed element states, instantiated on a catalogue of the public properties whose attribute codecs are the translated simple-type code of C11; exact correspondence of the extracted model on random assignment histories (fresh objects + corpus decks); direct oracle incl. save + re-open",
-    "text": "C09_get_set / C09_none / C09_reject / C09_frame / C09_history are proved for every state and value (placeholder geometry, whose setter reads the base placeholder and writes the displaced dimensions back, by C09_frame_placeholder / C09_get_set_placeholder over the Keep constructor); the catalogue (model/PropCatalogue.v) instantiates them for the public properties, with value domains and quanta taken from gen/GenC11.v; C09_catalogue_complete forces every settable property (regenerated from /repo each run) into the catalogue or the committed oracle-only list. The check compares the model's exact predicted outcome, read-back and element state with the implementation over random histories and runs the property's statement directly (read-after-write, re-open, None, rejection leaves XML unchanged, sibling readings unchanged).",
+    "text": "C09_get_set / C09_none / C09_reject / C09_frame / C09_history are proved for every state and value (so also from the element states only another producer writes: C09_get_set_moded / C09_get_set_horz_offset for the manual-layout store c:xMode + c:x of Legend.horz_offset, with the witness C09_ex_horz_offset_from_edge; placeholder geometry, whose setter reads the base placeholder and writes the displaced dimensions back, by C09_frame_placeholder / C09_get_set_placeholder over the Keep constructor); the catalogue (model/PropCatalogue.v) instantiates them for the public properties, with value domains and quanta taken from gen/GenC11.v; C09_catalogue_complete forces every settable property (regenerated from /repo each run) into the catalogue or the committed oracle-only list. The check compares the model's exact predicted outcome, read-back and element state with the implementation over random histories -- from fresh objects, corpus objects and schema-derived foreign pre-states (every enumeration value / alternative child / optional element of what a getter reads or a setter writes) -- and runs the property's statement directly (read-after-write, re-open, None, rejection leaves XML unchanged, sibling readings unchanged).",
     "note": "proxy-level plumbing is hand-transcribed (tied by correspondence); oracle-only properties are not covered by a theorem; quantum bounds are proved for EMU, centipoints, percentages and rotation, the other float conversions are checked bit-exactly only; reject-with-unchanged-state is REFUTED by the model for the setters that mutate before validating (witness theorems + replay); save/re-open relies on lxml.",
     "ref": "6/C09",
 }
